@@ -1240,6 +1240,10 @@ impl Connection {
                     debug!("path validation failed");
                     if let Some((_, prev)) = self.prev_path.take() {
                         self.path = prev;
+                        // Packets sent on the abandoned path are not counted as in flight on this
+                        // one, so no timer would ever declare them lost. Elicit an acknowledgement
+                        // on this path to get loss detection going again.
+                        self.ping();
                         self.set_loss_detection_timer(now);
                     }
                     self.path.challenge = None;
